@@ -560,7 +560,11 @@ class HostConnection(object):
                 conn.close()
 
     def _set_keyspace_for_all_conns(self, keyspace, callback):
+        # remembered for the next connection this pool opens (see _replace)
+        self._keyspace = keyspace
         if self.is_shutdown or not self._connection:
+            # no connection to switch right now: report back, otherwise the caller waits for ever
+            callback(self, [])
             return
 
         def connection_finished_setting_keyspace(conn, error):
@@ -568,7 +572,6 @@ class HostConnection(object):
             errors = [] if not error else [error]
             callback(self, errors)
 
-        self._keyspace = keyspace
         self._connection.set_keyspace_async(keyspace, connection_finished_setting_keyspace)
 
     def get_connections(self):
